@@ -48,6 +48,8 @@ class Run(object):
         self.samples = []
         self.notes = []
         self.degraded = []
+        import shutil
+        shutil.rmtree(os.path.join(REPLAY_DIR, prop), ignore_errors=True)
         self.findings = load_findings(prop)
         self.open_findings = [f for f in self.findings if f.get('status') == 'open']
         self.floor = 0
